@@ -1028,6 +1028,9 @@ fn c06_jobs(r: &mut Rng, w: &World, thorough: bool) -> Vec<VJob> {
              vec![pick(2, &[("a_name", true), ("a_age", false), ("a_zip", true)], &[], None)], vec!["a_name", "a_age", "a_zip"]),
             ("same-key-attr-and-pred", ReqSpec::new(NONCE).attr("1", "name").pred("1", "salary", ">", 1000),
              vec![pick(1, &[("1", true)], &[], None), pick(2, &[], &["1"], None)], vec!["1"]),
+            // two credentials over ONE schema from different credential definitions / issuers
+            ("same-schema-two-creddefs", ReqSpec::new(NONCE).attr("a_name", "name").attr("a_h", "height").pred("p_age", "age", ">=", 18),
+             vec![pick(0, &[("a_name", true)], &[], None), pick(1, &[("a_h", true)], &["p_age"], None)], vec!["a_name", "a_h", "p_age"]),
         ];
         for (sname, spec, picks, refs) in &setups {
             for q in &pool {
@@ -1049,6 +1052,19 @@ fn c06_jobs(r: &mut Rng, w: &World, thorough: bool) -> Vec<VJob> {
                 j.muts = if fmt == Fmt::Legacy { vec![Mut::IdentSet(0, "schema_id", json!(vw::SCHEMA_IDS[2]))] } else { vec![Mut::WIdent(0, "schema_id", json!(vw::SCHEMA_IDS[2]))] };
                 jobs.push(j.clone());
                 j.muts = if fmt == Fmt::Legacy { vec![Mut::IdentSet(0, "cred_def_id", json!(vw::CD_IDS[3]))] } else { vec![Mut::WIdent(0, "cred_def_id", json!(vw::CD_IDS[3]))] };
+                jobs.push(j);
+            }
+        }
+        // W3C has no referent map: a restricted group whose names come from different credentials
+        if fmt == Fmt::W3C {
+            let build = ReqSpec::new(NONCE).attr("a_name", "name").attr("a_zip", "zipcode");
+            for q in &pool {
+                if !thorough && r.chance(2, 3) {
+                    continue;
+                }
+                let verify = ReqSpec::new(NONCE).group("g", &["name", "zipcode"]).restr("g", q.clone());
+                let mut j = job("restriction:w3c-group-over-two-credentials", fmt, &build, &verify, vec![pick(0, &[("a_name", true)], &[], None), pick(2, &[("a_zip", true)], &[], None)], w);
+                j.base = Base::StripRestrictions;
                 jobs.push(j);
             }
         }
